@@ -18,8 +18,8 @@ import (
 // Bound: all trees x every break position 0..#leaves+1. Oracle: independent flattening of the tree text.
 
 type c19Case struct {
-	Tree    string `json:"tree"`     // e.g. "J(L,J(L,N),L)"
-	BreakAt int    `json:"break_at"` // consumer stops after this many elements; -1 = never
+	Tree    string `json:"tree"`                  // e.g. "J(L,J(L,N),L)"
+	BreakAt int    `json:"break_at"`              // consumer stops after this many elements; -1 = never
 	Mask    *int   `json:"defect_mask,omitempty"` // second family: configuration with this set of independent violations
 }
 
